@@ -628,6 +628,9 @@ func runC10(c *Ctx) error {
 	if err := c10Concurrent(c, l, "adm"+c09RandToken(rng, 20)); err != nil {
 		return err
 	}
+	if err := c10CommitBlocked(c, l, "adm"+c09RandToken(rng, 20)); err != nil {
+		return err
+	}
 	if err := c10SpaceProbe(c, l, rng); err != nil {
 		return err
 	}
